@@ -1,6 +1,7 @@
 (* C16 — raw serialisation round-trips and has a stable byte layout.  Statements only (Serial.v). *)
 From Coq Require Import ZArith List Arith.
-From NTT Require Import Serial.
+From NTT Require Import Serial Text.
+Import ListNotations.
 Local Open Scope Z_scope.
 
 (* writing then reading reproduces the words, consumes exactly count*wb bytes, leaves the rest of the stream (so several polynomials read back in sequence) *)
@@ -29,3 +30,16 @@ Theorem C16_truncated_overlay : forall wb, (0 < wb)%nat -> forall old ws k, leng
   overlay wb old (serialize wb (firstn k ws)) = firstn k ws ++ skipn k old.
 Proof. exact overlay_whole_limbs. Qed.
 Print Assumptions C16_truncated_overlay.
+
+(* the textual form "{ v0T, v1T, ..., vkT }" (T = U / UL / ULL: any suffix starting with 'U') written by the loop of operator<<
+   lists the stored words in order and parses back to exactly them; distinct polynomials have distinct texts *)
+Theorem C16_text_parses_back : forall suf, (exists r, suf = 85%N :: r) -> forall ws, ws <> nil -> Text.parse suf (Text.print suf ws) = Some ws.
+Proof. exact Text.parse_print. Qed.
+Print Assumptions C16_text_parses_back.
+Theorem C16_text_injective : forall suf, (exists r, suf = 85%N :: r) -> forall ws ws', ws <> nil -> ws' <> nil ->
+  Text.print suf ws = Text.print suf ws' -> ws = ws'.
+Proof. exact Text.print_injective. Qed.
+Print Assumptions C16_text_injective.
+Example C16_text_example : Text.print [85; 76]%N [0; 42; 1073479681]%N
+  = [123; 32; 48; 85; 76; 44; 32; 52; 50; 85; 76; 44; 32; 49; 48; 55; 51; 52; 55; 57; 54; 56; 49; 85; 76; 32; 125]%N.   (* "{ 0UL, 42UL, 1073479681UL }" *)
+Proof. vm_compute. reflexivity. Qed.
